@@ -11,6 +11,8 @@ use sudachi::dic::dictionary::JapaneseDictionary;
 use sudachi::dic::word_id::WordId;
 use sudachi::prelude::*;
 
+/// a malformed value of 36 bytes in 3-byte characters: byte offsets 31, 32, 34, 35 ... are inside a character
+const WIDE: &str = "数数数数数数数数数数数数";
 const ROW1: &str = "東,0,0,100,東,名詞,普通名詞,一般,*,*,*,ヒガシ,東,*,A,*,*,*,*\n";
 const OOV: &str = r#"{"class":"com.worksap.nlp.sudachi.SimpleOovPlugin","oovPOS":["名詞","普通名詞","一般","*","*","*"],"userPOS":"allow","leftId":0,"rightId":0,"cost":1000}"#;
 
@@ -36,6 +38,9 @@ fn matrix_text(c: &str) -> (String, i64, i64) {
         "garbage" => ("2 2\n0 0 1 zzz\n\u{FEFF}1 1 1\n".into(), 2, 2),
         "dup" => ("2 2\n0 0 1\n0 0 2\n".into(), 2, 2),
         "0x0" => ("0 0\n".into(), 0, 0),
+        "cellwide" => (format!("2 2\n0 0 {}\n", WIDE), 2, 2),
+        "headerwide" => (format!("{} 2\n0 0 0\n", WIDE), 2, 2),
+        "coordwide" => (format!("2 2\n0 a{} 0\n", &WIDE[3..]), 2, 2),
         other => panic!("matrix class {}", other),
     }
 }
@@ -48,20 +53,23 @@ pub fn render(cls: &Value) -> (String, String) {
     let g = |k: &str| cls[k].as_str().unwrap();
     let (mtext, nl, nr) = matrix_text(g("matrix"));
     let idv = |c: &str, max_by_use: i64| -> String {
-        match c { "0" => "0".into(), "max" => (max_by_use - 1).max(0).to_string(), "size" => max_by_use.to_string(), "empty" => "".into(), other => other.to_string() }
+        match c { "0" => "0".into(), "max" => (max_by_use - 1).max(0).to_string(), "size" => max_by_use.to_string(), "empty" => "".into(),
+                  "xwide" => WIDE.into(), "xmixed" => format!("a{}", &WIDE[3..]), other => other.to_string() }
     };
     let lid = idv(g("lid"), nr);
     let rid = idv(g("rid"), nl);
-    let cost = g("cost").to_string();
+    let cost = match g("cost") { "xwide" => WIDE.to_string(), "xmixed" => format!("-{}", &WIDE[3..]), "huge" => "9".repeat(40), o => o.to_string() };
     let key = match g("key") { "ok" => "京".to_string(), "empty" => "".into(), "long" => "あ".repeat(10000), "toolong" => "あ".repeat(11000), "badescape" => "\\u{110000}".into(), "escape" => "a\\u002cb".into(), o => panic!("{}", o) };
     let head = match g("head") { "same" => key.clone(), "other" => "頭".into(), "toolong" => "あ".repeat(11000), o => panic!("{}", o) };
-    let dic = match g("dic") { "*" => "*", "self" => "1", "other" => "0", "dangling" => "2", "uref" => "U0", "neg" => "-1", o => panic!("{}", o) };
-    let mode = match g("mode") { "bad" => "Q", o => o };
+    let dic = match g("dic") { "*" => "*", "self" => "1", "other" => "0", "dangling" => "2", "uref" => "U0", "neg" => "-1", "xwide" => WIDE, o => panic!("{}", o) };
+    let mode = match g("mode") { "bad" => "Q", "badwide" => WIDE, o => o };
     let splita = match g("splita") { "*" => "*".to_string(), "ids" => "0/0".into(), "dangling" => "0/5".into(),
         "inline_ok" => "\"0/東,名詞,普通名詞,一般,*,*,*,ヒガシ\"".into(), "inline_bad" => "\"無,名詞,普通名詞,一般,*,*,*,ム/0\"".into(),
-        "n127" => rep("0", 127, "/"), "n128" => rep("0", 128, "/"), "garbage" => "0/x".into(), o => panic!("{}", o) };
-    let ws = match g("ws") { "*" => "*".to_string(), "ids" => "0".into(), "dangling" => "9".into(), "n128" => rep("0", 128, "/"), o => panic!("{}", o) };
-    let syn = match g("syn") { "*" => "*".to_string(), "ids" => "1/2".into(), "n127" => rep("7", 127, "/"), "n128" => rep("7", 128, "/"), "x" => "a".into(), "absent" => "".into(), o => panic!("{}", o) };
+        "n127" => rep("0", 127, "/"), "n128" => rep("0", 128, "/"), "garbage" => "0/x".into(), "garbagewide" => format!("0/{}", WIDE),
+        "inline_wide" => format!("\"{},名詞,普通名詞,一般,*,*,*,{}/0\"", WIDE, WIDE), o => panic!("{}", o) };
+    let ws = match g("ws") { "*" => "*".to_string(), "ids" => "0".into(), "dangling" => "9".into(), "n128" => rep("0", 128, "/"), "garbagewide" => format!("U{}", WIDE), o => panic!("{}", o) };
+    let syn = match g("syn") { "*" => "*".to_string(), "ids" => "1/2".into(), "n127" => rep("7", 127, "/"), "n128" => rep("7", 128, "/"), "x" => "a".into(), "absent" => "".into(),
+        "xwide" => format!("1/{}", WIDE), "huge" => "9".repeat(40), o => panic!("{}", o) };
     let mut cols: Vec<String> = vec![key.clone(), lid, rid, cost, head, "名詞".into(), "普通名詞".into(), "一般".into(), "*".into(), "*".into(), "*".into(),
         "キョウ".into(), key.clone(), dic.into(), mode.into(), splita, "*".into(), ws];
     if g("syn") != "absent" { cols.push(syn); }
